@@ -107,6 +107,10 @@ func elems(t tensor.Tensor) reflect.Value {
 	}
 	shape := t.Shape()
 	n := prod(shape)
+	if n == 0 {
+		// a length-0 tensor (e.g. Shape of a rank-0 input): gorgonia cannot expose its data
+		return reflect.MakeSlice(reflect.SliceOf(t.Dtype().Type), 0, 0)
+	}
 	data := reflect.ValueOf(t.Data())
 	if data.Kind() == reflect.Slice && data.Len() == n && !t.RequiresIterator() && eqInts(t.Strides(), stdStrides(shape)) {
 		return data
